@@ -15,7 +15,7 @@ C13_OPS = ['prefix_increment', 'prefix_decrement', 'postfix_increment', 'postfix
 C13_HEAVY = ('multiply', 'divide', 'modulus')
 
 ALL_V_UNITS = ['cond_chain', 'cond_parser', 'bindings', 'lexer_digits', 'token_stream', 'source_manager', 'layout',
-               'hlsl_bindings', 'hlsl_analyse', 'hlsl_expr', 'hlsl_literal']
+               'hlsl_bindings', 'hlsl_analyse', 'hlsl_expr', 'hlsl_literal', 'msl_literal']
 
 PROPS = {
     'C01': {
@@ -34,7 +34,7 @@ PROPS = {
         'title': 'Binding slots are allocated completely, contiguously and without overlap',
         'v_units': ['bindings'],
         # discharges the contract the Verus unit assumes for TypeLayer::is_object (reference pattern)
-        'k_groups': [{'module': 'ir/ir_types.rs', 'harnesses': [('c06_is_object_contract', 'complete')], 'tier': 'quick'}],
+        'k_groups': [{'module': 'ir/ir_types.rs', 'harnesses': [('c06_is_object_contract', 'complete'), ('c06_register_type_table', 'complete')], 'tier': 'quick'}],
         'design_ref': 'DESIGN.md Part I, I.4 (C06)',
     },
     'C07': {
